@@ -164,6 +164,9 @@ def evaluate(task_desc, x, slots=None):
 def true_cost(task_desc, x, slots=None):
     """Reported cost the statement demands: objective at x, weight-vector dot product if multi-objective."""
     v = evaluate(task_desc, x, slots)
+    ob = task_desc["objective"]
+    if "multi" not in ob and ob.get("user_state"):
+        v = v + float(ob.get("user_offset", 0.0))          # the value the user's module state had for this run
     if task_desc.get("weights") is not None:
         return float(np.dot(v, task_desc["weights"]))
     return v
